@@ -535,6 +535,19 @@ pub fn check(ctx: &mut Ctx, id: &'static str) {
             }
             ctx.random("ast-documents", 400, 200_000, 15_000_000, |t| gen(t, which), oracle_c16);
             ctx.reshrink::<AstCase, _, _>("ast-documents", oracle_c16, crate::props::clean::shrink_ast);
+            // items far down in long files: the number column must stay fixed-width when the line numbers of one item
+            // differ in their number of digits (9 -> 10, 99 -> 100, ..., 9 999 999 -> 10 000 000)
+            let units: Vec<u64> = vec![7, 97, 997, 9_997, 99_997, 999_997, 9_999_997];
+            ctx.exhaustive("large-line-numbers", "7 files that begin with 10^k - 3 line breaks (k = 1..7), so that the lines of the listed items cross a power of ten; list and list_all, JSON and pretty", units, |n, obs| {
+                obs.eval();
+                match large_line_numbers(*n) {
+                    Ok(()) => {
+                        obs.nontrivial_counted(|| json!({"leading_line_breaks": n}));
+                        None
+                    }
+                    Err(m) => Some(fail_case("large-line-numbers", &json!({"leading_line_breaks": n}), m)),
+                }
+            });
         }
         Which::C17 => {
             ctx.rule = "cases = documents of the C15 space with pending / skip / unregistered / malformed-condition / un-unwrappable elements around and inside ready ones. Oracle: list_all JSON == by-construction sequence (first line, last line, status) in source order: every Ready region once, every region of a registered-but-not-ready element that is not inside a Ready region or a larger Pending region; Ready subsequence identical to list; pretty statuses agree. Non-trivial = >= 2 pending regions and >= 1 ready region.".into();
@@ -547,7 +560,51 @@ pub fn check(ctx: &mut Ctx, id: &'static str) {
     }
 }
 
-pub fn replay(id: &str, _sub: &str, case: &Value, obs: &mut Obs) -> Result<Verdict, String> {
+/// A file that begins with `n` line breaks, followed by a multi-line ready element (indented, with a tab inside) and a
+/// pending inline one: every item must satisfy the rendering rule of C16.
+fn large_line_numbers(n: u64) -> Result<(), String> {
+    let head = "\n".repeat(n as usize);
+    let body = "  <rm name='a'>\n\tx\n  y\n  z</rm> tail\nq <rm name='zz'>p</rm>\n";
+    let src = format!("{head}{body}");
+    let cfg = Cfg::simple("<", ">");
+    let s1 = head.len() + 2;
+    let e1 = head.len() + body.find("</rm>").unwrap() + 5;
+    let s2 = head.len() + body.find("<rm name='zz'>").unwrap();
+    let e2 = head.len() + body.rfind("</rm>").unwrap() + 5;
+    let first = n + 1;
+    for all in [false, true] {
+        let js = call_list(&src, &cfg, all, true).map_err(|e| format!("list failed on a file that begins with {n} line breaks: {e}"))?;
+        let items = parse_items(&js)?;
+        let want: Vec<(u64, u64, bool, usize, usize)> = if all { vec![(first, first + 3, true, s1, e1), (first + 4, first + 4, false, s2, e2)] } else { vec![(first, first + 3, true, s1, e1)] };
+        if items.len() != want.len() {
+            return Err(format!("{} items listed for a file that begins with {n} line breaks, expected {}", items.len(), want.len()));
+        }
+        let pretty = call_list(&src, &cfg, all, false).map_err(|e| format!("pretty list failed: {e}"))?;
+        let plain = strip_ansi(&pretty).0;
+        let mut pos = 0;
+        for (it, (f, l, ready, s, e)) in items.iter().zip(want.iter()) {
+            if (it.first, it.last, it.ready) != (*f, *l, *ready) {
+                return Err(format!("item is (lines {}..={}, ready {}), expected ({f}..={l}, {ready}) in a file that begins with {n} line breaks", it.first, it.last, it.ready));
+            }
+            check_rendering(&src, *s, *e, &it.block).map_err(|m| format!("file that begins with {n} line breaks, item at lines {f}..={l}: {m}\n  block = {:?}", it.block))?;
+            match plain[pos..].find(it.block.as_str()) {
+                Some(p) => pos += p + it.block.len(),
+                None => return Err(format!("the pretty form (colour codes stripped) does not contain the JSON code block of the item at lines {f}..={l}")),
+            }
+        }
+    }
+    Ok(())
+}
+
+pub fn replay(id: &str, sub: &str, case: &Value, obs: &mut Obs) -> Result<Verdict, String> {
+    if sub == "large-line-numbers" {
+        let n = case["leading_line_breaks"].as_u64().ok_or("no leading_line_breaks")?;
+        obs.eval();
+        return Ok(match large_line_numbers(n) {
+            Ok(()) => Verdict::Pass,
+            Err(m) => Verdict::Fail(m),
+        });
+    }
     replay_case::<AstCase, _>(case, obs, |c, obs| {
         obs.eval();
         match id {
